@@ -55,13 +55,15 @@ def _coord6(v) -> str:
 
 
 def enc_opt_int(v) -> str:
-    return "_" if v is None else str(int(v))
+    try:
+        return "_" if v is None else str(int(v))
+    except Exception:
+        return "_"
 
 
 def enc_atom(d: dict, coord=_coord) -> list[str]:
-    unknown = set(d) - KNOWN_ATOM_KEYS
-    if unknown:
-        raise ValueError(f"atom attribute outside the modelled set: {unknown}")
+    # never raises: an attribute outside the modelled set is left out of the line sent to the model, while the dump of
+    # the real result prints UNMODELLED=..., so the operation shows as a disagreement instead of crashing the check
     t = []
     t.append("_" if "element_symbol" not in d else esc(d["element_symbol"]))
     for k in ("atomic_number", "partition", "mass", "rad", "chg"):
@@ -72,16 +74,16 @@ def enc_atom(d: dict, coord=_coord) -> list[str]:
         t.append("_")
     else:
         inv = d["invariant_code"]
-        t.append(",".join(str(int(i)) for i in inv) if len(inv) else "nil")
+        try:
+            t.append(",".join(str(int(i)) for i in inv) if len(inv) else "nil")
+        except Exception:
+            t.append("_")
     t.append("_" if "explored" not in d else ("T" if d["explored"] else "F"))
     t.append("_" if TAG not in d else esc(str(d[TAG])))
     return t
 
 
 def enc_bond(d: dict) -> list[str]:
-    unknown = set(d) - KNOWN_BOND_KEYS
-    if unknown:
-        raise ValueError(f"bond attribute outside the modelled set: {unknown}")
     return [enc_opt_int(d.get("bond_type")), "_" if TAG not in d else esc(str(d[TAG]))]
 
 
@@ -196,9 +198,13 @@ def show_str_list(l) -> str:
 
 
 def show_err(e: BaseException) -> str:
-    name = type(e).__name__
     known = {"MolfileParserException", "TucanParserException", "KeyError", "IndexError", "ValueError",
              "AssertionError", "RecursionError", "TypeError"}
+    # the library's own exception types count with their subclasses ("the parser's own exception type")
+    for cls in type(e).__mro__:
+        if cls.__name__ in ("TucanParserException", "MolfileParserException"):
+            return "ERR " + cls.__name__
+    name = type(e).__name__
     return "ERR " + (name if name in known else "Other:" + name)
 
 
